@@ -71,6 +71,9 @@ type File struct {
 	// AlignedTable: the entry file declares a struct with many fields whose trailing comments gofmt
 	// aligns with spaces (a printer configuration that aligns with tabs prints the file SHORTER)
 	AlignedTable bool
+	// DefaultMux: the program registers its own /metrics and /track handlers on http.DefaultServeMux
+	// (the usual Prometheus set-up); the tracking service must not collide with them
+	DefaultMux bool
 	// InitK > 0: the file (one that carries the helpers) has a func init whose statement changes
 	// between the revisions (code that runs before main only)
 	InitK int
@@ -146,7 +149,7 @@ var leafKinds = []string{
 	"deferClosure", "deferArg", "goWait", "sendrecv", "recvStmt", "composite", "structLit", "applyMulti", "panicRecover",
 	"varFunc", "method", "generic", "multilineCall", "multilineExpr", "comment", "blockComment", "returnEarly", "goArg",
 	"ifCondClosure", "labeledIfElse", "closureMultiSig", "twoSingles", "closureSigMultiBodySingle", "selectRecv", "lineComment2",
-	"derefAssign", "derefMulti", "closure1Unicode", "returnThenLabel", "ifchainInitReturns",
+	"derefAssign", "derefMulti", "closure1Unicode", "returnThenLabel", "ifchainInitReturns", "ifHeaderComment",
 }
 
 var compoundKinds = []string{"if", "ifelse", "ifchain", "ifinit", "for", "range", "switch", "switchinit", "typeswitch", "select",
@@ -239,6 +242,9 @@ func (f *File) Render(old bool) string {
 	imps := []string{}
 	if f.Helpers || f.IsMain {
 		imps = append(imps, `"fmt"`)
+	}
+	if f.IsMain && f.DefaultMux {
+		imps = append(imps, `"net/http"`)
 	}
 	needSync := f.Helpers
 	for _, fn := range f.Funcs {
@@ -345,6 +351,10 @@ func (f *File) Render(old bool) string {
 			w.line(0, "func main() {")
 		}
 		w.line(1, "total := 0")
+		if f.DefaultMux {
+			w.line(1, `http.HandleFunc("/metrics", func(w http.ResponseWriter, r *http.Request) { w.WriteHeader(204) })`)
+			w.line(1, `http.HandleFunc("/track", func(w http.ResponseWriter, r *http.Request) { w.WriteHeader(204) })`)
+		}
 		for _, fn := range f.Funcs {
 			if old && fn.Status == Added {
 				continue
@@ -467,6 +477,8 @@ func (w *writer) global(n *Node) {
 		w.line(1, "y := %d", k)
 		w.line(1, "return y")
 		w.line(0, "}()")
+	case "globalRaw": // a raw string whose lines end in blanks and tabs (they are part of the value)
+		w.raw(fmt.Sprintf("var gr%d = `banner %d   \n\tsecond line\t \nthird  \n\n`\n", n.ID, k))
 	case "globalTable":
 		w.line(0, "var gt%d = map[string]func(int) int{", n.ID)
 		w.line(1, `"a": func(x int) int { return x + %d },`, k)
@@ -493,7 +505,12 @@ func (w *writer) fn(fn *Func) {
 		w.epilogue()
 		w.line(0, "}")
 	case "single":
-		w.line(0, "func %s(a, b int) int { return a*%d + b }", fn.Name, k)
+		if fn.K%3 == 0 { // wrapped signature, body on one line (valid Go; gofmt would expand the body)
+			w.line(0, "func %s(a int,", fn.Name)
+			w.line(1, "b int) int { return a*%d + b }", k)
+		} else {
+			w.line(0, "func %s(a, b int) int { return a*%d + b }", fn.Name, k)
+		}
 	case "empty":
 		w.line(0, "func %s() {}", fn.Name)
 	case "method":
@@ -688,6 +705,12 @@ func (w *writer) stmt(ind int, n *Node) {
 		w.line(ind+1, "}")
 		w.closure--
 		w.line(ind, "}(acc)")
+	case "ifHeaderComment": // a condition that spans lines, with a comment-only line and a blank-free gap inside the header
+		w.line(ind, "if acc > %d && // lower bound", k)
+		w.line(ind+1, "// the header goes on after this comment line")
+		w.line(ind+1, "acc < 1000000 {")
+		w.line(ind+1, "acc += %d", k)
+		w.line(ind, "}")
 	case "returnThenLabel": // statements behind an unconditional return, reached through goto
 		w.line(ind, "acc = func(x int) int {")
 		w.closure++
@@ -852,9 +875,9 @@ func (w *writer) stmt(ind int, n *Node) {
 // GenGlobals generates global closure declarations.
 func (g *Gen) GenGlobals() []*Node {
 	var out []*Node
-	for _, kind := range []string{"globalMulti", "globalSingle", "globalTable", "globalParen", "globalChain", "globalBinary"} {
+	for _, kind := range []string{"globalRaw", "globalMulti", "globalSingle", "globalTable", "globalParen", "globalChain", "globalBinary"} {
 		p := 50
-		if strings.HasPrefix(kind, "global") && (kind == "globalParen" || kind == "globalChain" || kind == "globalBinary") {
+		if strings.HasPrefix(kind, "global") && (kind == "globalParen" || kind == "globalChain" || kind == "globalBinary" || kind == "globalRaw") {
 			p = 20
 		}
 		if g.R.Intn(100) < p {
